@@ -17,12 +17,57 @@ use std::time::Duration;
 
 pub struct RunMode {
     counter: u32,
+    bin: bool,
 }
 
 impl RunMode {
     pub fn new() -> Self {
-        RunMode { counter: 0 }
+        RunMode { counter: 0, bin: false }
     }
+    /// cases for the release binary (`elf=` field): main.rs + elf::load + Cpu::run end to end
+    pub fn new_bin() -> Self {
+        RunMode { counter: 0, bin: true }
+    }
+}
+
+/// Run the emulator binary on an ELF file with `-m` and return what can be observed from outside:
+/// outcome, total state count and exit code from the log, the message sequence from stdout.
+fn run_binary(elf: &str, args: &str) -> String {
+    let bin = std::env::var("H8_BIN").unwrap_or_else(|_| "/verif/work/repo-target/release/koge29_h8-3069f_emulator".to_string());
+    let mut cmd = std::process::Command::new("timeout");
+    cmd.arg("60").arg(&bin).arg("--elf").arg(elf).arg("-m").arg("--log").arg("info");
+    if !args.is_empty() {
+        cmd.arg(format!("--args={}", args));
+    }
+    let out = match cmd.output() {
+        Ok(o) => o,
+        Err(e) => return format!("spawnfail:{}", e.to_string().replace(' ', "_")),
+    };
+    let stdout = String::from_utf8_lossy(&out.stdout).to_string();
+    let stderr = String::from_utf8_lossy(&out.stderr).to_string();
+    let log = format!("{}\n{}", stderr, stdout);
+    // stdout = console text of the guest interleaved with `msg: <message>` lines, unescaped: compared as a whole
+    let outb = &out.stdout;
+    let mut hh: u64 = 0xcbf29ce484222325;
+    for b in outb.iter() {
+        hh ^= *b as u64;
+        hh = hh.wrapping_mul(0x100000001b3);
+    }
+    let find = |key: &str| -> Option<String> {
+        log.lines().find_map(|l| l.split_once(key).map(|(_, v)| v.trim().to_string()))
+    };
+    let outcome = match out.status.code() {
+        Some(0) if log.contains("Finished program") => "finished",
+        Some(0) => "stopped",
+        Some(124) => "hang",
+        // main() unwraps the Err that run() returns for a failing instruction
+        Some(101) if log.contains("An error occurred when executing the opcode") => "error",
+        Some(101) => "panic",
+        _ => "error",
+    };
+    let sum = find("state: ").map(|v| v.split(',').next().unwrap_or("").trim().to_string()).unwrap_or_default();
+    let code = find("Exit Code: ").unwrap_or_default();
+    format!("{} sum={} exitcode={} outlen={} outfnv={:x} outhead={} rerun=-", outcome, sum, code, outb.len(), hh, hex(&outb[..outb.len().min(160)]))
 }
 
 fn h(s: &str) -> u32 {
@@ -272,10 +317,14 @@ fn run_once(rc: RunCase, port: u16, chunk_seed: u64) -> String {
 
 impl Mode for RunMode {
     fn gen(&mut self, ctx: &Ctx, emit: &mut dyn FnMut(String)) {
-        crate::m_run_gen::generate(ctx, emit);
+        crate::m_run_gen::generate(ctx, self.bin, emit);
     }
 
     fn exec(&mut self, case: &str) -> String {
+        if let Some(elf) = field(case, "elf") {
+            let args = String::from_utf8_lossy(&unhex(field(case, "args").unwrap_or(""))).to_string();
+            return run_binary(elf, &args);
+        }
         let rc = parse_case(case);
         let mut first = String::new();
         for attempt in 0..8 {
@@ -325,6 +374,47 @@ impl Mode for RunMode {
         };
         let kind = field(case, "kind").unwrap_or("-").to_string();
         let key = format!("run {}", kind);
+        if field(case, "elf").is_some() {
+            // the binary, seen from outside: outcome, total, exit code (ER0 as the log prints it) and the message sequence
+            let outcome = imp.split(' ').next().unwrap_or("");
+            let m_outcome = m.split(' ').next().unwrap_or("");
+            let er0 = field(&m, "er").unwrap_or("").split(',').next().map(|x| u32::from_str_radix(x, 16).unwrap_or(0)).unwrap_or(0);
+            let mut why = String::new();
+            if outcome == "hang" || outcome == "panic" || outcome.starts_with("spawnfail") {
+                why = format!("the binary ended as {}", outcome);
+            } else if outcome != m_outcome {
+                why = format!("the binary ended as {}, the model of run() as {}", outcome, m_outcome);
+            } else if outcome == "finished" {
+                if field(imp, "sum") != field(&m, "sum") {
+                    why = format!("state total printed by the binary {} vs {}", field(imp, "sum").unwrap_or(""), field(&m, "sum").unwrap_or(""));
+                } else if field(imp, "exitcode").unwrap_or("") != er0.to_string() {
+                    why = format!("exit code printed by the binary {} vs ER0 = {}", field(imp, "exitcode").unwrap_or(""), er0);
+                } else {
+                    // what the binary must have printed: console text of each write call, then one `msg:` line per message
+                    let mut want: Vec<u8> = Vec::new();
+                    for e in field(&m, "msgs").unwrap_or("").split(',').filter(|e| !e.is_empty()) {
+                        let b = unhex(e);
+                        if let Some(t) = b.strip_prefix(b"stdout:") {
+                            want.extend_from_slice(t);
+                        }
+                        want.extend_from_slice(b"msg: ");
+                        want.extend_from_slice(&b);
+                        want.push(b'\n');
+                    }
+                    let mut hh: u64 = 0xcbf29ce484222325;
+                    for b in want.iter() {
+                        hh ^= *b as u64;
+                        hh = hh.wrapping_mul(0x100000001b3);
+                    }
+                    if field(imp, "outlen").unwrap_or("") != want.len().to_string() || field(imp, "outfnv").unwrap_or("") != format!("{:x}", hh) {
+                        why = format!("stdout of the binary ({} bytes, starts {}) is not the console text and message lines of the run ({} bytes, starts {})",
+                            field(imp, "outlen").unwrap_or(""), field(imp, "outhead").unwrap_or(""), want.len(), hex(&want[..want.len().min(160)]));
+                    }
+                }
+            }
+            let v = if why.is_empty() { Verdict::Agree } else { Verdict::Corr(why) };
+            return (v, key, Some(fnv(case)));
+        }
         let tcp = field(case, "tcp") == Some("1");
         // ---- correspondence: everything the model prints, except the wire bytes when no TCP connection was used
         let strip = |x: &str| -> String {
